@@ -446,7 +446,7 @@ impl Ctx {
             bufs: Arena::new(max_buf + 4096),
             hdrs: Arena::new(max_cap * 32 + 4096),
             max_cap,
-            heap_mode: false,
+            heap_mode: cfg!(miri),
             heap_buf: Vec::new(),
             heap_hdrs: Vec::new(),
         }
@@ -466,6 +466,22 @@ impl Ctx {
     pub fn run(&mut self, spec: &Spec<'_>) -> Obs {
         self.ensure(spec.buf.len(), spec.cap);
         write_inflight(spec);
+        #[cfg(miri)]
+        if let Ok(p) = std::env::var("VERIF_MIRI_INFLIGHT") {
+            // under Miri an UB report aborts the interpreter: leave the case on disk first
+            let rec = crate::engine::CaseRec {
+                sub: std::borrow::Cow::Borrowed("miri"),
+                entry: spec.entry,
+                cfg: spec.cfg,
+                cap: spec.cap,
+                place: spec.place,
+                backend: 0,
+                buf: spec.buf.to_vec(),
+                aux: vec![spec.hdr_at_end as u64, matches!(spec.prefill, Prefill::Sentinel) as u64],
+                bufs: vec![],
+            };
+            let _ = std::fs::write(p, crate::engine::replay_json("miri", "miri/undefined-behaviour", "Miri reported undefined behaviour during this call (reproduce under cargo +nightly miri)", &rec));
+        }
         let mut buf_ptr = self.bufs.place_ptr(spec.buf.len(), spec.place);
         if self.heap_mode {
             // exact-size heap allocation (shrink_to_fit => capacity == len for the allocator)
